@@ -267,6 +267,9 @@ pub fn catalogue() -> Vec<Prog> {
     // two labels that differ only in letter case are two labels
     v.push(p("casepair", false, b"", vec![pc_lab("ld", 0, "count"), pc_lab("ld", 1, "Count"), pc_lab("lea", 2, "COUNT"), halt(),
                                          fill(0x11).lab("count"), fill(0x22).lab("Count"), fill(0x33).lab("COUNT")]));
+    // labels that only LOOK like a register or a literal (an underscore makes them identifiers)
+    v.push(p("oddlabels", false, b"", vec![pc_lab("ld", 0, "r1_loop"), pc_lab("ld", 1, "R7_SAVE"), pc_lab("lea", 2, "x30_05"), add_i(3, 3, 1).lab("r0_"), halt(),
+                                          fill(0x11).lab("r1_loop"), fill(0x22).lab("R7_SAVE"), fill(0x33).lab("x30_05"), fill(0x44).lab("b_101"), fill(0x55).lab("o_7")]));
     v.push(p("wrapld", false, b"", vec![orig(0x0000), pc_lit("ld", 0, -3), pc_lit("st", 0, -4), pc_lit("lea", 1, -2), base_off("ldr", 2, 1, -1), halt()]));
     v.push(p("data", false, b"", vec![
         pc_lab("ld", 0, "a"), pc_lab("ldi", 1, "pa"), pc_lab("lea", 2, "a"), base_off("ldr", 3, 2, 1), base_off("str", 3, 2, 2),
@@ -563,7 +566,9 @@ pub fn random_cmd(rng: &mut Rng, prog: &Prog, orig: i64, n: i64, mutating: bool)
         _ => {
             // malformed eval text
             let it = add_i(1, 1, 1);
-            let txt = *rng.pick(&[".end", ".end add r1 r1 #1", "\"add\" r1 r1 #1", "add r3 r1 \"2\"", "trap \"x21\"", "jmp r1 .end", "add r1 r1", "add r1 r1 r1 r1", "add r1 r1 #1 #2", "add r1 #1 r1", ".fill x3000", "add r1 r1 #1 add r2 r2 #1",
+            let txt = *rng.pick(&["lea r1 #300", "ld r2 x12c", "st r4 #-257", "ldi r3 #256", "sti r3 #-300", "jsr #1024", "jsr #-1025", "lea r1 #32767", "ld r1 x-8000",
+                                  ".fill x41", ".FILL #-1", ".stringz \"ok\"", ".break", ".blkw #2", ".orig x3000",
+                                  ".end", ".end add r1 r1 #1", "\"add\" r1 r1 #1", "add r3 r1 \"2\"", "trap \"x21\"", "jmp r1 .end", "add r1 r1", "add r1 r1 r1 r1", "add r1 r1 #1 #2", "add r1 #1 r1", ".fill x3000", "add r1 r1 #1 add r2 r2 #1",
                                   "lea r0", "foo", "ld r0 r1", "not r1", "add r1, r1, #99", "trap", "x3000", "r1", "puts r0", "ret r7"]);
             eval(&it, false, Some(txt.to_string()), rng)
         }
@@ -850,7 +855,12 @@ fn sessions_scenario(rng: &mut Rng) -> Vec<Session> {
                          with_loc("goto", lab("far1100", 0), rng), eval(&pc_lab("jsr", 0, "start_"), true, None, rng), simple("registers", rng),
                          with_loc("goto", lab("far1100", 0), rng), eval(&pc_lab("call", 0, "start_"), true, None, rng), eval(&pc_lab("sti", 3, "nolabel"), true, None, rng),
                          eval(&pc_lab("ldi", 3, "nolabel"), true, None, rng), simple("registers", rng), simple("exit", rng)]);
+    // labels more than 32767 words behind the origin
+    sc!("biggap", true, [with_loc("assembly", lab("far_", 0), rng), with_loc("assembly", lab("far_", 1), rng), with_loc("assembly", lab("tail_", -1), rng),
+                         with_loc("print", lab("tail_", 0), rng), with_loc("goto", lab("far_", 0), rng), simple("registers", rng), with_loc("breakadd", lab("tail_", 0), rng),
+                         simple("breaklist", rng), mov(lab("far_", 1), 7, rng), with_loc("print", lab("far_", 1), rng), simple("exit", rng)]);
     let mut cat = catalogue();
+    cat.push(p("biggap", false, b"", vec![halt().lab("start_"), blkw(33000), add_i(1, 1, 1).lab("far_"), add_i(2, 2, 2), halt().lab("tail_")]));
     cat.push(p("fargap", true, b"", vec![add_i(0, 0, 1).lab("start_"), halt(), blkw(198), add_i(1, 1, 1).lab("near200"), blkw(299), add_i(2, 2, 1).lab("near500"), blkw(99),
                                         add_i(3, 3, 1).lab("far600"), blkw(499), add_i(4, 4, 1).lab("far1100"), plain("rets")]));
     // programs used by scenarios only (they do not terminate on their own, or only make sense with their script)
